@@ -621,7 +621,8 @@ func (m *Mint) RequestMeltQuote(meltQuoteRequest nut05.PostMeltQuoteBolt11Reques
 	if bolt11.MSatoshi == 0 {
 		return storage.MeltQuote{}, cashu.BuildCashuError("invoice has no amount", cashu.MeltQuoteErrCode)
 	}
-	invoiceSatAmount := uint64(bolt11.MSatoshi) / 1000
+	// the invoice is paid in full: a fraction of a sat is charged as a whole one
+	invoiceSatAmount := (uint64(bolt11.MSatoshi) + 999) / 1000
 	quoteAmount := invoiceSatAmount
 
 	// check if a mint quote exists with the same invoice.
